@@ -14,7 +14,7 @@ H = 'C06_values.py'
 
 
 def obligations(thorough):
-    T = 900 if thorough else 200
+    T = 1100 if thorough else 200
     sl_small = 3 if thorough else 2        # classes with <= 2 string fields
     sl = 2 if thorough else 1              # classes with many string fields (uniform length per object)
     base = dict(VH_STRLEN=sl, VH_MAXN=3 if thorough else 2, VH_NU=3 if thorough else 2,
@@ -36,7 +36,11 @@ def obligations(thorough):
     # equality laws
     add('eqhash_Parameter', 'eqhash_Parameter', small)
     add('eq3_Parameter', 'eq3_Parameter', small)
-    add('eqhash_Parameters', 'eqhash_Parameters', base)
+    if thorough:
+        add('eqhash_Parameters[n<=3,len<=1]', 'eqhash_Parameters', dict(base, VH_STRLEN=1))
+        add('eqhash_Parameters[n<=2,len<=2]', 'eqhash_Parameters', dict(base, VH_MAXN=2))
+    else:
+        add('eqhash_Parameters', 'eqhash_Parameters', base)
     bases = (0, 1) if thorough else (0,)
     for b in bases:
         for cata in ((0, 1, 2, 3, 4) if thorough else (0, 1, 3)):
@@ -124,6 +128,8 @@ def main():
         'contract used: x == y => hash(x) == hash(y) for builtin str/int/bool/float(non-NaN)/None/tuple); a failing '
         'law is re-decided with the builtin hash on the realised objects outside the tracer before it is reported; a '
         'path on which only a builtin hash collision hides the failure is not reported',
+        'Unit values (sympy expressions, taken from a concrete table) are leaves of the structural hash: sympy\'s own '
+        '__eq__/__hash__ consistency is trusted',
         'np.isnan(x) := x != x inside pharmpy.model.parameters',
         'float(x) inside Parameter.create returns a wrapper with the comparisons of x and a constant __format__ (the '
         'f-string of the ValueError message would realise x); only in param_create/param_replace and the filter',
